@@ -21,6 +21,8 @@ static const ld TAU_ADJ = std::getenv("VERIF_DEBUG_TAU_ADJ") ? (ld)std::atof(std
 //   propagateGrad with generic upstream gradients   1.0e-12 / 3.1e-10 / 2.7e-9  (cubic / quintic / septic)
 //   energy gradients (direct and propagated partials) 2.7e-15 / 9.8e-14 / 1.1e-12
 inline ld tau_adj(int S) { return S == 2 ? std::min<ld>(TAU_ADJ, 1e-9L) : TAU_ADJ; }
+//   the same with all-equal or nearly-equal durations (ratio <= 1.001), quick tier   5.3e-13 / 1.2e-12 / 5.7e-11
+inline ld tau_adj_uniform(int S) { return std::min<ld>(TAU_ADJ, S == 2 ? 1e-9L : (S == 3 ? 1e-9L : 3e-8L)); }
 inline ld tau_egrad(int S) { return std::min<ld>(TAU_ADJ, S == 2 ? 1e-11L : (S == 3 ? 1e-10L : 1e-9L)); }
 inline ld tau_zero(int S) { return S == 2 ? 1e-12L : (S == 3 ? 1e-11L : 1e-10L); }
 
@@ -201,10 +203,14 @@ void c05_case(Tape& t, Ctx& ctx) {
     for (int i = 0; i < N; ++i) gTl(i) = gT(i);
     RefSpline::Adjoint ra = ref.adjoint(gCl, gTl);
     std::string what = std::string(SplineOf<D, S>::name()) + " dim=" + std::to_string(D) + " propagateGrad(upstream " + gname + ", durations " + c.dur_shape + " ratio " + g6(c.ratio) + ")";
-    if (!compare_with_ref<S>(ctx, g1, ra, N, tau_adj(S), what, "adjoint-mismatch", (std::string("adjoint_err_") + SplineOf<D, S>::name()).c_str())) return;
+    const bool uniformish = c.ratio <= 1.001;   // all-equal and nearly-equal durations: far better conditioned, judged with their own tolerance
+    if (!compare_with_ref<S>(ctx, g1, ra, N, uniformish ? tau_adj_uniform(S) : tau_adj(S), what, "adjoint-mismatch", (std::string(uniformish ? "adjoint_err_uniform_" : "adjoint_err_") + SplineOf<D, S>::name()).c_str())) return;
     // linearity: exact for power-of-two factors
     {
-      int k = t.sym(8);
+      // "for any upstream gradient": also very small and very large ones (2^-100 ... 2^100; exact, nothing under- or overflows)
+      static const int kBig[] = {-100, -60, -50, -44, -40, 40, 60, 100};
+      int k = t.chance(1, 3) ? kBig[t.range(0, 7)] : t.sym(8);
+      if (k < -20 || k > 20) ctx.label(k < 0 ? "linearity:tiny-upstream" : "linearity:huge-upstream");
       MatrixType gCs = gC * pow2i(k); Eigen::VectorXd gTs = gT * pow2i(k);
       Grads gs = sp.propagateGrad(gCs, gTs);
       Grads ex = g1;
